@@ -75,9 +75,9 @@ def run_case(case, rec):
     obj = nn.build(cfg)
     x2 = x[:k] + y
     with np.errstate(all="ignore"):
-        ok, r_full = rec.guard(f"c05.call:{lab}", obj.test, np.array(x))
-        ok2, r_alt = rec.guard(f"c05.call:{lab}", obj.test, np.array(x2))
-        ok3, r_cut = rec.guard(f"c05.call:{lab}", obj.test, np.array(x[:k]))
+        ok, r_full = rec.guard(f"c05.call:{lab}", obj.test, nn.to_array(x, cfg))
+        ok2, r_alt = rec.guard(f"c05.call:{lab}", obj.test, nn.to_array(x2, cfg))
+        ok3, r_cut = rec.guard(f"c05.call:{lab}", obj.test, nn.to_array(x[:k], cfg))
         if not (ok and ok2 and ok3):
             return
         h, h2, hc = (np.asarray(r[1], dtype=float) for r in (r_full, r_alt, r_cut))
@@ -107,8 +107,8 @@ def run_case(case, rec):
             if not name:
                 continue
             fn = getattr(obj, which)
-            ok, a = rec.guard(f"c05.call:{name}", fn, np.array(x))
-            okb, b = rec.guard(f"c05.call:{name}", fn, np.array(x2))
+            ok, a = rec.guard(f"c05.call:{name}", fn, nn.to_array(x, cfg))
+            okb, b = rec.guard(f"c05.call:{name}", fn, nn.to_array(x2, cfg))
             if not (ok and okb):
                 continue
             a, b = _arr(a, n), _arr(b, len(x2))
